@@ -1276,7 +1276,10 @@ class QvmCpu:
         self.push(CellType.REFERENCE, ref)
 
     def _exec_ret(self):
-        if self.error_handler_active:
+        if self.error_handler_active and \
+           self.cur_frame.prev_frame is None:
+            # the handler ran into the end of the main routine;
+            # procedures called by the handler return normally
             self.trap(TrapCode.NO_RESUME)
 
         self.cur_frame.destroy()
@@ -1285,7 +1288,8 @@ class QvmCpu:
         self.pc = ret_addr
 
     def _exec_retv(self):
-        if self.error_handler_active:
+        if self.error_handler_active and \
+           self.cur_frame.prev_frame is None:
             self.trap(TrapCode.NO_RESUME)
 
         self.cur_frame.destroy()
